@@ -55,12 +55,15 @@ def q4(x):
     return int(q)
 
 
-VALIDATORS = [{"const": True}, {"const": False}, {"eq": "a"}, {"eq": {"i": 100}}, {"eqClaim": "iss"}]
+# (a validator answers by truth value: `return redis.set(key, 1, nx=True)` is None for a replayed jti, a dict lookup gives None / 0 / "" for an unknown issuer)
+VALIDATORS = [{"const": True}, {"const": False}, {"eq": "a"}, {"eq": {"i": 100}}, {"eqClaim": "iss"},
+              {"const": False, "as": "None"}, {"const": False, "as": "0"}, {"const": False, "as": "''"}, {"const": False, "as": "[]"}, {"const": True, "as": "1"}, {"const": True, "as": "'ok'"}]
+
 
 
 def mk_validator(j):
     if "const" in j:
-        return lambda claims, v: j["const"]
+        return lambda claims, v: eval(j["as"]) if "as" in j else j["const"]
     if "eq" in j:
         c = dec(j["eq"])
         return lambda claims, v: v == c
